@@ -30,7 +30,8 @@ def hook_names():
 
 
 def gen(cfg, ellps_path, simulate=None, seed=None, depth=8, timeout=1500):
-    r = vlib.tlc("MC_C09", "MC_C09_" + cfg, workers=4, timeout=timeout, env={"ELLPS": ellps_path},
+    # simulation with one worker and a seed is reproducible (several workers are not)
+    r = vlib.tlc("MC_C09", "MC_C09_" + cfg, workers=1 if simulate else 4, timeout=timeout, env={"ELLPS": ellps_path},
                  simulate=simulate, depth=depth if simulate else None, seed=seed if simulate else None,
                  tag="C09-" + cfg)
     vlib.tlc_must_pass(r)
